@@ -8,6 +8,8 @@ for mp in sorted(glob.glob(os.path.join(HERE, 'seeded', '*', 'meta.json'))):
     m = json.load(open(mp))
     name = os.path.basename(os.path.dirname(mp))
     cb = '; '.join('%s: %s' % (k, ','.join(v)) for k, v in sorted((m.get('caught_by') or {}).items())) or 'NOT CAUGHT'
+    if m.get('obsolete_since'):
+        cb = 'obsolete on HEAD (no longer a violation): ' + m['obsolete_since'][:60]
     one = m.get('one_line') or m['summary'].split('. ')[0][:170]
     print('| %s | %s | %s | %s | %s |' % (name, m.get('property', name[:3]), one.replace('|', '/'), cb,
                                          'yes' if m.get('caught_before_strengthening') else 'no - ' + (m.get('note') or '')[:160].replace('|', '/')))
